@@ -97,3 +97,12 @@ pub fn tick() {
     }
     BUDGET.store(b - 1, Relaxed);
 }
+
+/// Address, length and capacity (in bytes) of the digit buffer of `x`, so that a monitoring
+/// harness can write-protect an operand that is only borrowed by the call under observation.
+pub fn raw_parts(x: &crate::BigUint) -> (*const u8, usize, usize) {
+    use crate::biguint::IntDigits;
+    let d = x.digits();
+    let w = core::mem::size_of::<crate::big_digit::BigDigit>();
+    (d.as_ptr() as *const u8, d.len() * w, x.capacity() * w)
+}
